@@ -252,7 +252,7 @@ class Driver(object):
         self.dispatched.append(key)
         if self.lazy:
             self.unstarted.append(list(a))
-            self._first[key] = first
+            self._first.setdefault(key, []).append(first)  # (known finding R1 offers a running join again)
         else:
             self._send_first(a, first)
 
@@ -266,7 +266,7 @@ class Driver(object):
         """first status report(s) of a dispatched action (lazy mode; the optional task-level running
         report of a with-items task is not made in this mode)"""
         self.unstarted.remove(list(a))
-        self._send_first(a, self._first.pop(tuple(a)))
+        self._send_first(a, self._first[tuple(a)].pop(0))
 
     def _startup(self, key):
         # The full action lifecycle (requested, scheduled, running) is reported only for the first
